@@ -35,7 +35,7 @@ CLASSES = {
             "ready-unsynced", "ready-twice", "event-before-ready", "emit-before-ready", "ready-observed-not-declared", "list-not-snapshot",
             "callback-before-ready", "flag-mismatch"},
     "C10": ORDER | {"drop-not-full", "drop-unknown", "cache-not-current", "filter-not-quiescent", "list-not-snapshot", "close-hangs", "shutdown-timeout", "api-call-blocks"},
-    "C11": {"stopped-outside-closed-subtree", "cascade-incomplete", "shutdown-timeout", "closed-before-drained", "close-hangs", "api-call-blocks"} | ORDER,
+    "C11": {"stopped-outside-closed-subtree", "cascade-incomplete", "shutdown-timeout", "closed-before-drained", "close-hangs", "api-call-blocks", "goroutine-leak"} | ORDER,
     "C12": {"goroutine-leak", "shutdown-timeout", "close-hangs", "call-blocks-after-done", "call-fails-after-done", "closed-before-drained", "api-call-blocks",
             "racing-call-zombie"},
     "C16": {"callbacks-overlap", "initialize-not-first-or-twice", "callback-before-ready", "callback-after-done", "initialize-not-cache-content",
@@ -50,7 +50,7 @@ VARIANTS = {
     "C07": [("refilter", 1.0)],
     "C08": [("refilter", 0.5), ("mixed", 0.3), ("monitor", 0.2)],
     "C10": [("overflow", 1.0)],
-    "C11": [("close", 0.6), ("monitor", 0.2), ("overflow", 0.2)],
+    "C11": [("close", 0.5), ("monitor", 0.15), ("overflow", 0.15), ("ctl:shutdown", 0.4)],
     "C12": [("ctl:shutdown", 0.5), ("close", 0.2), ("mixed", 0.15), ("overflow", 0.15)],
     "C13": [("ctl:timing", 1.0)],
     "C14": [("ctl:listfail", 0.7), ("ctl:watch", 0.3)],
